@@ -169,6 +169,10 @@ pub struct TypeChecker {
     namespace_to_file: HashMap<NamespaceID, FileOrLib>,
     // TODO(ed): This can probably be removed via some trickery
     pub file_to_namespace: HashMap<FileOrLib, NamespaceID>,
+    /// Pairs of tuple types whose elements are being checked right now. Types can
+    /// refer to themselves (`x == (x,)` makes `x` a tuple of itself) - a pair we
+    /// come back to while checking it holds, instead of recursing forever.
+    tuple_pairs_in_progress: BTreeSet<(TyID, TyID)>,
 }
 
 #[derive(Clone, Debug, Copy)]
@@ -201,6 +205,7 @@ impl TypeChecker {
                 .iter()
                 .map(|(a, b)| (b.clone(), a.clone()))
                 .collect(),
+            tuple_pairs_in_progress: BTreeSet::new(),
         };
         for var in variables {
             let ty = res.push_type(Type::Unknown);
@@ -1799,17 +1804,33 @@ impl TypeChecker {
             .or_insert_with(|| span);
     }
 
+    /// Checks `op` on every pair of elements of two tuples - `a` and `b` are the tuples
+    /// themselves, see [TypeChecker::tuple_pairs_in_progress].
+    fn for_each_tuple_element(
+        &mut self,
+        a: TyID,
+        b: TyID,
+        pairs: Vec<(TyID, TyID)>,
+        mut op: impl FnMut(&mut Self, TyID, TyID) -> TypeResult<()>,
+    ) -> TypeResult<()> {
+        let key = (self.find(a), self.find(b));
+        if !self.tuple_pairs_in_progress.insert(key) {
+            return Ok(());
+        }
+        let res = pairs.into_iter().try_for_each(|(x, y)| op(self, x, y));
+        self.tuple_pairs_in_progress.remove(&key);
+        res
+    }
+
     fn add(&mut self, span: Span, ctx: TypeCtx, a: TyID, b: TyID) -> TypeResult<()> {
         match (self.find_type(a), self.find_type(b)) {
             (Type::Unknown, _) | (_, Type::Unknown) => Ok(()),
 
             (Type::Float, Type::Float) | (Type::Int, Type::Int) | (Type::Str, Type::Str) => Ok(()),
 
-            (Type::Tuple(a), Type::Tuple(b)) if a.len() == b.len() => {
-                for (a, b) in a.iter().zip(b.iter()) {
-                    self.add(span, ctx, *a, *b)?;
-                }
-                Ok(())
+            (Type::Tuple(xs), Type::Tuple(ys)) if xs.len() == ys.len() => {
+                let pairs = xs.into_iter().zip(ys.into_iter()).collect();
+                self.for_each_tuple_element(a, b, pairs, |s, x, y| s.add(span, ctx, x, y))
             }
 
             _ => err_type_error!(
@@ -1830,11 +1851,9 @@ impl TypeChecker {
 
             (Type::Float, Type::Float) | (Type::Int, Type::Int) => Ok(()),
 
-            (Type::Tuple(a), Type::Tuple(b)) if a.len() == b.len() => {
-                for (a, b) in a.iter().zip(b.iter()) {
-                    self.sub(span, ctx, *a, *b)?;
-                }
-                Ok(())
+            (Type::Tuple(xs), Type::Tuple(ys)) if xs.len() == ys.len() => {
+                let pairs = xs.into_iter().zip(ys.into_iter()).collect();
+                self.for_each_tuple_element(a, b, pairs, |s, x, y| s.sub(span, ctx, x, y))
             }
 
             _ => err_type_error!(
@@ -1855,11 +1874,9 @@ impl TypeChecker {
 
             (Type::Float, Type::Float) | (Type::Int, Type::Int) => Ok(()),
 
-            (Type::Tuple(a), Type::Tuple(b)) if a.len() == b.len() => {
-                for (a, b) in a.iter().zip(b.iter()) {
-                    self.mul(span, ctx, *a, *b)?;
-                }
-                Ok(())
+            (Type::Tuple(xs), Type::Tuple(ys)) if xs.len() == ys.len() => {
+                let pairs = xs.into_iter().zip(ys.into_iter()).collect();
+                self.for_each_tuple_element(a, b, pairs, |s, x, y| s.mul(span, ctx, x, y))
             }
 
             _ => err_type_error!(
@@ -1881,18 +1898,14 @@ impl TypeChecker {
 
             (Type::Float | Type::Int, Type::Float | Type::Int) => Ok(()),
 
-            (Type::Tuple(a), Type::Float | Type::Int) => {
-                for a in a.iter() {
-                    self.div(span, ctx, *a, b)?;
-                }
-                Ok(())
+            (Type::Tuple(xs), Type::Float | Type::Int) => {
+                let pairs = xs.into_iter().map(|x| (x, b)).collect();
+                self.for_each_tuple_element(a, b, pairs, |s, x, y| s.div(span, ctx, x, y))
             }
 
-            (Type::Tuple(a), Type::Tuple(b)) if a.len() == b.len() => {
-                for (a, b) in a.iter().zip(b.iter()) {
-                    self.div(span, ctx, *a, *b)?;
-                }
-                Ok(())
+            (Type::Tuple(xs), Type::Tuple(ys)) if xs.len() == ys.len() => {
+                let pairs = xs.into_iter().zip(ys.into_iter()).collect();
+                self.for_each_tuple_element(a, b, pairs, |s, x, y| s.div(span, ctx, x, y))
             }
 
             _ => err_type_error!(
@@ -1927,11 +1940,11 @@ impl TypeChecker {
                 self.div_res(span, ctx, a, b)
             }
 
-            (Type::Tuple(a), Type::Tuple(b)) if a.len() == b.len() => {
-                for (a, b) in a.iter().zip(b.iter()) {
-                    self.div_res(span, ctx, *a, *b)?;
-                }
-                Ok(())
+            (Type::Tuple(xs), Type::Tuple(ys)) if xs.len() == ys.len() => {
+                let pairs = xs.into_iter().zip(ys.into_iter()).collect();
+                // The result type is unfolded as we go (see the arm above), so it's
+                // the dividend alone that tells us if we've been here before.
+                self.for_each_tuple_element(a, a, pairs, |s, x, y| s.div_res(span, ctx, x, y))
             }
 
             _ => err_type_error!(
@@ -1960,11 +1973,9 @@ impl TypeChecker {
             | (Type::Float, Type::Int)
             | (Type::Str, Type::Str) => Ok(()),
 
-            (Type::Tuple(a), Type::Tuple(b)) if a.len() == b.len() => {
-                for (a, b) in a.iter().zip(b.iter()) {
-                    self.cmp(span, ctx, *a, *b)?;
-                }
-                Ok(())
+            (Type::Tuple(xs), Type::Tuple(ys)) if xs.len() == ys.len() => {
+                let pairs = xs.into_iter().zip(ys.into_iter()).collect();
+                self.for_each_tuple_element(a, b, pairs, |s, x, y| s.cmp(span, ctx, x, y))
             }
 
             // TODO(ed): Maybe sets?
